@@ -349,7 +349,7 @@ def install(tracer, completion="fifo"):
         tracer.info["loaded"] = {
             "active": [int(p) for p in state.live_paths()],
             "diag": [float(state.state[i][i]) for i in range(n)],
-            "locked0": [[list(map(int, a)), list(map(str, b))] for a, b in state.locked0],
+            "locked0": [[list(map(int, a)), list(map(str, b))] for a, b, *_o in state.locked0],
             "cstep": int(state.cstep),
         }
         return md, state
